@@ -83,6 +83,12 @@ def simulate(hs: History, dyn_ids: Optional[Dict[int, int]] = None) -> Tuple[Dic
                 depart(c, conns, ex, "bad-size")
                 continue
             pl = bytes.fromhex(j.get("payload", ""))
+            need = {MT["CONNECT"]: 4, MT["CONNECT_V2"]: 44, MT["SUBSCRIBE"]: 4, MT["UNSUBSCRIBE"]: 4,
+                    MT["PAUSE_SUBSCRIPTION"]: 4, MT["RESUME_SUBSCRIPTION"]: 4, MT["MODULE_READY"]: 4,
+                    MT["CLIENT_SET_NAME"]: 32}.get(t, 0)
+            if len(pl) < need:
+                c.will_fail = None     # decoded from stale buffer contents: outside the oracle
+                continue
             if t in (MT["CONNECT"], MT["CONNECT_V2"]):
                 if c.connected:
                     continue
